@@ -11,6 +11,7 @@ import SkaModel.DriverHist
 import SkaModel.DriverMap
 import SkaModel.DriverSkf
 import SkaModel.DriverCov
+import SkaModel.Spec.BuildTable
 import SkaModel.Impl.Reads
 import SkaModel.Spec.ReadsSpec
 
@@ -124,6 +125,35 @@ def runCase (c : Case) : String × String :=
     let sd := Spec.specReadsDict (c.nat "k") (c.flag "rc") rule (c.nat "mq") (c.nat "mc")
       ((f1 ++ f2).map (fun r => (r.seq, r.qual)))
     (m, if sd.isEmpty then "novalid" else showDict sd)
+  | "buildalign" =>
+    -- samples -> joint build -> array -> align; and the same through the specification
+    let W := c.nat "w"
+    let k := c.nat "k"
+    let rc := c.flag "rc"
+    let samples := parseSamples (c.get "samples")
+    let names := (List.range samples.length).map (fun i => s!"s{i}")
+    let t := c.nat "t"
+    let ft := c.get "ft"
+    let (mask, gaps, famb) := (c.flag "mask", c.flag "gaps", c.flag "famb")
+    let built := samples.map (fun recs => buildDict W k rc recs)
+    let m :=
+      if built.any (fun b => match b with | .dict _ => false | _ => true) then "novalid"
+      else
+        let sds : List SampleDict := built.zipIdx.map (fun bi =>
+          { k := k, rc := rc, idx := bi.2, name := s!"s{bi.2}", kmers := match bi.1 with | .dict d => d | _ => [] })
+        match buildAndMerge k rc (c.natOr "threads" 1) sds with
+        | .error _ => "refused"
+        | .ok md =>
+          let a := Arr.ofDict W md
+          let seqs := Modes.align a t (filterTypeOf ft) mask gaps famb
+          s!"align[names={joinStr (seqs.map (·.1))};cols={columnsStr (seqs.map (·.2))}]"
+    let sp :=
+      if samples.any (fun recs => (Spec.observations k rc recs).isEmpty) then "novalid"
+      else
+        let tb := Spec.specTable k rc names samples
+        let cols := tb.alignColumns t famb (siteFilterOf ft) mask gaps
+        s!"align[names={joinStr names};cols={joinStr (sortStrings (cols.map strOf))}]"
+    (m, sp)
   | "covll" => runCovll c
   | "covcut" => runCovcut c
   | "covcheck" => runCovcheck c
